@@ -379,6 +379,8 @@ def _check_install(run: Run, inst: Install, res: Resolver) -> None:
     if dir_kw is not None:
         if isinstance(dir_kw, ast.Attribute) and dir_kw.attr == "parent" and isinstance(dir_kw.value, ast.Name) and dir_kw.value.id in aliases:
             ok = True
+        elif isinstance(dir_kw, ast.Attribute) and dir_kw.attr == "parent" and isinstance(dir_kw.value, ast.Call) and ast.unparse(dir_kw.value.func) in ("Path", "pathlib.Path") and len(dir_kw.value.args) == 1 and isinstance(dir_kw.value.args[0], ast.Name) and dir_kw.value.args[0].id in aliases:
+            ok = True  # Path(<target>).parent
         elif isinstance(dir_kw, ast.Call) and ast.unparse(dir_kw.func) in ("os.path.dirname", "str") and names_in(dir_kw) & aliases:
             ok = True
     run.instance("R16.4", f"{mod.relpath}:{inst.mkstemp.call.lineno}", f"{fi.qualname}: mkstemp dir={ast.unparse(dir_kw) if dir_kw is not None else None}", ok=ok, target_aliases=sorted(aliases))
